@@ -666,7 +666,8 @@ impl TextResource {
     /// Returns a sorted double-ended iterator over all textselections in this resource.
     /// For unsorted (slightly more performant), use [`TextResource::textselections_unsorted()`] instead.
     pub fn iter<'a>(&'a self) -> TextSelectionIter<'a> {
-        self.range(0, self.textlen())
+        //the end of the text is a valid position too (selections ending there, zero-width selections at the end)
+        self.range(0, self.textlen() + 1)
     }
 
     /// Returns a sorted iterator over all absolute positions (begin aligned cursors) that are in use.
